@@ -912,7 +912,7 @@ func ruleUnconditionalClearing(p *Prog, l *Ledger, tier string) {
 				key := l.Key(rule, FnName(f), "clear", t+"."+fld)
 				bad := ""
 				for _, dc := range dominatingConds(b) {
-					if isLoopBoundCond(dc.cond) {
+					if isLoopBoundCond(dc.cond) || isLenOfItemsCond(dc.cond) {
 						continue
 					}
 					// a nil test of the very location being cleared
